@@ -4,6 +4,8 @@
 #include "mp/nl-reader.h"
 #include <cstring>
 #include <cerrno>
+#include "rec_c04.h"
+namespace mp { void RecDumpLinks(pre::BasicValuePresolver &); }  // recmodelmgr.cc (C19 extension)
 
 std::unique_ptr<mp::BasicBackend> CreateRecBackend() {
   return std::unique_ptr<mp::BasicBackend>{new mp::RecBackend()};
@@ -36,6 +38,8 @@ void rec_fault(const char *site) {
 
 std::unique_ptr<BasicModelManager>
 CreateRecModelMgr(RecCommon &, Env &, pre::BasicValuePresolver *&);
+/// C20: log every registered link entry with its final extent (defined in recmodelmgr.cc)
+void RecLogFinalLinks(pre::BasicValuePresolver &, RecState &);
 
 RecBackend::RecBackend() {
   rec_fault("ctor");
@@ -76,9 +80,24 @@ ArrayRef<double> RecBackend::GetObjectiveValues() {
   return std::vector<double>(st_.nobjs, 0.0);
 }
 
+void RecBackend::DumpGraphOnce() {
+  if (st_.graph_dumped || !std::getenv("RECSOLVER_C04")) return;
+  st_.graph_dumped = true;
+  st_.Log(rec_c04::DumpLinkGraph(GetValuePresolver(), st_.rangecon));
+}
+
+bool RecBackend::IsMIP() const {
+  static const int m = std::getenv("RECSOLVER_ISMIP") ? std::atoi(std::getenv("RECSOLVER_ISMIP")) : 1;
+  return m != 0;
+}
+
 void RecBackend::Solve() {
   st_.Log("{\"ev\":\"solve\"}");
-  rec_fault("solve");
+  rec_fault("solve");                                      // C09: RECSOLVER_FAULT=solve:<kind>
+  RecDumpLinks(GetValuePresolver());                       // C19: RECSOLVER_LINKS=<file>
+  if (const char *l = std::getenv("RECSOLVER_LINKS")) if (*l == '1') RecLogFinalLinks(GetValuePresolver(), st_);  // C20: RECSOLVER_LINKS=1
+  DumpGraphOnce();                                         // C04: RECSOLVER_C04=1 (event `linkgraph`)
+  if (std::getenv("RECSOLVER_C04")) rec_c04::RunCalls(GetValuePresolver(), st_);   // C04: RECSOLVER_C04_CALLS=<file>
   if (st_.throw_in_solve == 1) throw std::runtime_error("scripted runtime_error in Solve");
   if (st_.throw_in_solve == 2) throw mp::Error("scripted mp::Error in Solve", st_.code);
   if (st_.throw_in_solve == 3) throw mp::UnsupportedError("scripted UnsupportedError in Solve");
@@ -96,7 +115,8 @@ SolutionBasis RecBackend::GetBasis() {
   auto mv = GetValuePresolver().PostsolveBasis({std::move(varstt), {{{CG_Linear, std::move(constt)}}}});
   varstt = mv.GetVarValues()();
   constt = mv.GetConValues()();
-  st_.Log("{\"ev\":\"basis_out\",\"var\":" + rec::ints(varstt) + ",\"con\":" + rec::ints(constt) + "}");
+  st_.Log("{\"ev\":\"basis_out\",\"var\":" + rec::ints(varstt) + ",\"con\":" + rec::ints(constt) +
+          ",\"solver_var\":" + rec::ints(st_.varstt) + ",\"solver_con\":" + rec::ints(st_.constt) + "}");
   return {std::move(varstt), std::move(constt)};
 }
 
@@ -105,7 +125,8 @@ void RecBackend::SetBasis(SolutionBasis basis) {
   auto varstt = mv.GetVarValues()();
   auto constt = mv.GetConValues()(CG_Linear);
   st_.Log("{\"ev\":\"basis_in\",\"src_var\":" + rec::ints(basis.varstt) + ",\"src_con\":" + rec::ints(basis.constt) +
-          ",\"var\":" + rec::ints(varstt) + ",\"con_lin\":" + rec::ints(constt) + "}");
+          ",\"var\":" + rec::ints(varstt) + ",\"con_lin\":" + rec::ints(constt) +
+          ",\"pre\":{" + rec_c04::mvals<int>(mv) + "}}");
 }
 
 void RecBackend::AddPrimalDualStart(Solution sol0) {
@@ -113,26 +134,44 @@ void RecBackend::AddPrimalDualStart(Solution sol0) {
   auto x0 = mv.GetVarValues()();
   auto pi0 = mv.GetConValues()(CG_Linear);
   st_.Log("{\"ev\":\"warmstart\",\"src_x\":" + rec::dbls(sol0.primal) + ",\"src_pi\":" + rec::dbls(sol0.dual) +
-          ",\"x\":" + rec::dbls(x0) + ",\"pi_lin\":" + rec::dbls(pi0) + "}");
+          ",\"x\":" + rec::dbls(x0) + ",\"pi_lin\":" + rec::dbls(pi0) +
+          ",\"pre\":{" + rec_c04::mvals<double>(mv) + "}}");
 }
 
 void RecBackend::AddMIPStart(ArrayRef<double> x0, ArrayRef<int> sparsity) {
-  st_.Log("{\"ev\":\"mipstart\",\"x\":" + rec::dbls(x0) + ",\"sparsity\":" + rec::ints(sparsity) + "}");
+  std::string extra;
+  if (std::getenv("RECSOLVER_C04")) {        // presolve as GurobiBackend::AddMIPStart does
+    auto mv = GetValuePresolver().PresolveSolution({x0});
+    auto ms = GetValuePresolver().PresolveGenericInt({sparsity});
+    extra = ",\"pre_x\":{" + rec_c04::mvals<double>(mv) + "},\"pre_sparsity\":{" + rec_c04::mvals<int>(ms) + "}";
+  }
+  st_.Log("{\"ev\":\"mipstart\",\"x\":" + rec::dbls(x0) + ",\"sparsity\":" + rec::ints(sparsity) + extra + "}");
 }
 
 void RecBackend::VarPriorities(ArrayRef<int> p) {
-  st_.Log("{\"ev\":\"priorities\",\"p\":" + rec::ints(p) + "}");
+  std::string extra;
+  if (std::getenv("RECSOLVER_C04")) {        // presolve as GurobiBackend::VarPriorities does
+    auto mv = GetValuePresolver().PresolveGenericInt({p});
+    extra = ",\"pre\":{" + rec_c04::mvals<int>(mv) + "}";
+  }
+  st_.Log("{\"ev\":\"priorities\",\"p\":" + rec::ints(p) + extra + "}");
 }
 
 void RecBackend::MarkLazyOrUserCuts(ArrayRef<int> l) {
-  st_.Log("{\"ev\":\"lazy\",\"lin\":" + rec::ints(l) + "}");
+  std::string extra;
+  if (std::getenv("RECSOLVER_C04")) {        // presolve as GurobiBackend::MarkLazyOrUserCuts does
+    auto mv = GetValuePresolver().PresolveLazyUserCutFlags({{}, l});
+    extra = ",\"pre\":{" + rec_c04::mvals<int>(mv) + "}";
+  }
+  st_.Log("{\"ev\":\"lazy\",\"lin\":" + rec::ints(l) + extra + "}");
 }
 
 IIS RecBackend::GetIIS() {
   if (!st_.have_iisvar && !st_.have_iiscon) return {};
   auto mv = GetValuePresolver().PostsolveIIS({st_.iisvar, {{{CG_Linear, st_.iiscon}}}});
   std::vector<int> v = mv.GetVarValues()(), c = mv.GetConValues()();
-  st_.Log("{\"ev\":\"iis_out\",\"var\":" + rec::ints(v) + ",\"con\":" + rec::ints(c) + "}");
+  st_.Log("{\"ev\":\"iis_out\",\"var\":" + rec::ints(v) + ",\"con\":" + rec::ints(c) +
+          ",\"solver_var\":" + rec::ints(st_.iisvar) + ",\"solver_con\":" + rec::ints(st_.iiscon) + "}");
   return {v, c};
 }
 
